@@ -20,8 +20,14 @@ Definition tiles (R : list row) (a b : Z) (cs : stream) : Prop :=
 Definition uniform (dt : Z) (run : option Z) (cs : stream) : Prop :=
   Forall (fun c => cdtype c = dt /\ crun c = run) cs.
 
+(* no chunk before the last one ends at the end of the run, i.e. no zero-duration chunk is kept back at the end:
+   Plugin.iter with several dependencies raises "terminated without fetching last" on such streams (C08,
+   C08_iter_total_without_trailing_hyp_refuted) *)
+Definition ends_nt (b : Z) (ends : list Z) : Prop := Forall (fun e => e < b) (removelast ends).
+Definition no_trailing (b : Z) (cs : stream) : Prop := ends_nt b (map cend cs).
+
 Definition chunking_of (dt : Z) (run : option Z) (R : list row) (a b : Z) (cs : stream) : Prop :=
-  tiles R a b cs /\ uniform dt run cs.
+  tiles R a b cs /\ uniform dt run cs /\ no_trailing b cs.
 
 Definition same_data (c c' : chunk) : Prop :=
   cstart c' = cstart c /\ cend c' = cend c /\ crows c' = crows c.
@@ -149,7 +155,8 @@ Lemma map_local_tiles m h : local_comp h -> forall cs calls s e,
   Forall wf cs -> Forall tight cs -> Forall2 same_data cs calls -> chain s cs e ->
   exists out, map_res (fun c => out_chunk m (cstart c) (cend c) (h (crows c))) calls = Ok out /\
               Forall wf out /\ chain s out e /\ flat_map crows out = flat_map (fun c => h (crows c)) cs /\
-              uniform (o_dtype m) (o_run m) out /\ length out = length cs /\ Forall tight out.
+              uniform (o_dtype m) (o_run m) out /\ length out = length cs /\ Forall tight out /\
+              map cend out = map cend cs.
 Proof.
   intros L. induction cs as [|c cs IH]; intros calls s e W TT F Ch.
   - inversion F; subst. exists []. cbn. repeat split; auto; constructor.
@@ -161,9 +168,9 @@ Proof.
     { lia. } { lia. }
     { rewrite S3. apply (lc_sorted h L). exact Csrt. }
     { rewrite S1, S2, S3. apply (lc_within h L). exact CF. }
-    destruct (IH calls' (cend c) e Wcs Tcs F' Ch) as (out & Em & Wout & Cho & Ro & Uo & Lo & To).
+    destruct (IH calls' (cend c) e Wcs Tcs F' Ch) as (out & Em & Wout & Cho & Ro & Uo & Lo & To & Mo).
     cbn [map_res]. rewrite Eo. cbn [res_bind]. rewrite Em. cbn [res_bind].
-    exists (o :: out). split; [reflexivity|]. split; [|split; [|split; [|split; [|split]]]].
+    exists (o :: out). split; [reflexivity|]. split; [|split; [|split; [|split; [|split; [|split]]]]].
     + constructor; auto.
     + cbn. split; [congruence|]. rewrite O2, S2. exact Cho.
     + cbn. rewrite O3, S3, Ro. reflexivity.
@@ -171,17 +178,18 @@ Proof.
     + cbn. congruence.
     + constructor; [|exact To]. apply (tight_sub c o Tc); [congruence|].
       intros q Hq. rewrite O3, S3 in Hq. apply (lc_rt h L _ _ Hq).
+    + cbn [map]. rewrite O2, S2, Mo. reflexivity.
 Qed.
 
 Theorem run_local_correct m h dt run R a b cs :
   local_comp h -> chunking_of dt run R a b cs ->
   exists out, run_local m h cs = Ok out /\ chunking_of (o_dtype m) (o_run m) (h R) a b out.
 Proof.
-  intros L ((Hne & W & TT & Ch & HR) & U).
+  intros L ((Hne & W & TT & Ch & HR) & U & NT).
   destruct (iter_single_spec dt run cs a b Hne W U Ch) as (calls & Ei & F & _).
-  destruct (map_local_tiles m h L cs calls a b W TT F Ch) as (out & Em & Wo & Cho & Ro & Uo & Lo & To).
+  destruct (map_local_tiles m h L cs calls a b W TT F Ch) as (out & Em & Wo & Cho & Ro & Uo & Lo & To & Mo).
   exists out. unfold run_local. rewrite Ei. cbn [res_bind]. split; [exact Em|].
-  split; [|exact Uo]. split; [|split; [|split; [|split]]]; auto.
+  split; [|split; [exact Uo|unfold no_trailing; rewrite Mo; exact NT]]. split; [|split; [|split; [|split]]]; auto.
   - intros ->. destruct cs; [congruence|discriminate].
   - rewrite Ro, <- (lc_flat h L), HR. reflexivity.
 Qed.
@@ -291,7 +299,7 @@ Theorem run_exhaust_correct m f dt run R a b cs :
   whole_comp f -> chunking_of dt run R a b cs ->
   exists out, run_exhaust m f cs = Ok out /\ chunking_of (o_dtype m) (o_run m) (f R) a b out.
 Proof.
-  intros Wf ((Hne & W & TT & Ch & HR) & U).
+  intros Wf ((Hne & W & TT & Ch & HR) & U & NT).
   destruct cs as [|c cs]; [congruence|].
   inversion W as [|? ? Wc Wcs]; subst. inversion U as [|? ? [U1 U2] Ucs]; subst.
   pose proof Ch as Ch0. cbn in Ch. destruct Ch as [Cs Ch].
@@ -304,7 +312,7 @@ Proof.
   { apply (wc_within f Wf). exact CF. }
   rewrite Eo. cbn [res_bind]. exists [o]. split; [reflexivity|].
   assert (HRb : crows bb = flat_map crows (c :: cs)) by (rewrite B3; reflexivity).
-  split; [|constructor; [split; auto|constructor]].
+  split; [|split; [constructor; [split; auto|constructor]|unfold no_trailing, ends_nt; cbn; constructor]].
   split; [discriminate|]. split; [constructor; [exact Wo|constructor]|].
   split; [|split].
   - constructor; [|constructor]. unfold tight. rewrite O2, O3, B2. apply Forall_forall. intros q Hq.
@@ -398,7 +406,8 @@ Lemma map_pair_tiles m sk P h : pair_comp P h -> forall calls s e,
     map_res (pair_step m sk h) calls = Ok out /\
     Forall wf out /\ Forall tight out /\ chain s out e /\
     flat_map crows out = flat_map (fun p => h (crows (fst p)) (crows (snd p))) calls /\
-    uniform (o_dtype m) (o_run m) out /\ length out = length calls.
+    uniform (o_dtype m) (o_run m) out /\ length out = length calls /\
+    map cend out = map (fun p => cend (fst p)) calls.
 Proof.
   intros PC. induction calls as [|[c1 c2] calls IH]; intros s e HF HL Ch.
   - exists []. cbn. repeat split; auto; constructor.
@@ -406,7 +415,7 @@ Proof.
     cbn in Ch. destruct Ch as [Cs Ch].
     assert (HL' : sk = true -> equal_len calls).
     { intros Hk. specialize (HL Hk). inversion HL; auto. }
-    destruct (IH (cend c1) e HF' HL' Ch) as (out & Em & Wout & Tout & Cho & Ro & Uo & Lo).
+    destruct (IH (cend c1) e HF' HL' Ch) as (out & Em & Wout & Tout & Cho & Ro & Uo & Lo & Mo).
     pose proof W1 as (C0 & Cse & Csrt & CF).
     destruct (out_chunk_ok m (cstart c1) (cend c1) (h (crows c1) (crows c2))) as (o & Eo & Wo & O1 & O2 & O3 & O4 & O5); auto.
     { apply (pc_sorted P h PC). exact Csrt. }
@@ -417,7 +426,7 @@ Proof.
       rewrite Hl, Nat.eqb_refl. reflexivity. }
     rewrite Hlen. rewrite E1, E2, !Z.eqb_refl. cbn [andb negb]. rewrite Eo. cbn [res_bind].
     rewrite Em. cbn [res_bind].
-    exists (o :: out). split; [reflexivity|]. split; [|split; [|split; [|split; [|split]]]].
+    exists (o :: out). split; [reflexivity|]. split; [|split; [|split; [|split; [|split; [|split]]]]].
     + constructor; auto.
     + constructor; [|exact Tout]. apply (tight_sub c1 o T1 O2).
       intros q Hq. rewrite O3 in Hq. apply (pc_rt P h PC _ _ _ Hq).
@@ -425,6 +434,7 @@ Proof.
     + cbn. rewrite O3, Ro. reflexivity.
     + constructor; [split; auto|exact Uo].
     + cbn. congruence.
+    + cbn [map fst]. rewrite O2, Mo. reflexivity.
 Qed.
 
 (* ---------------------------------------------------------------------------------------------- *)
